@@ -2,6 +2,7 @@ import Hive.Proofs.TypedValue
 import Hive.Proofs.TypedStore
 import Hive.Proofs.TypedConc
 import Hive.Proofs.TypedCounter
+import Hive.Gen.C06_Skel
 /-!
 # C06 — TypedValue / TypedStore are transparent, error-faithful typed views
 
@@ -101,6 +102,7 @@ theorem C06_old_compute_witness :
 
 variable {K : Type}
 
+omit [Inhabited V] in
 /-- **TypedStore is transparent.**  Without faults every method returns what the raw store
 operation under the codecs returns (`sspec`; for `Iterate` stated declaratively: the decodable
 prefix of the matching entries in raw order, cut where the callback stops, plus the first decode
@@ -150,6 +152,7 @@ theorem C06_store_transparent (KC : Codec K) (VC : Codec V) (m : Store) (op : SO
     simp only [sspec]
     split <;> rfl
 
+omit [Inhabited V] in
 /-- **TypedStore failures are reported and change nothing.**  For every method and fault vector:
 a failed call (store, key/value encoder, any decode call of an iteration, injected or natural) makes
 the method return exactly that call's error with the store untouched; and an error is returned only
@@ -161,6 +164,7 @@ theorem C06_store_failure_atomic (KC : Codec K) (VC : Codec V) (m : Store) (op :
         ∃ e ∈ (sstep KC VC m op F).tr, e.res = .fail ∧ serrOf e.call = k) :=
   ⟨sfailAtomic_step KC VC m op F, serrTraced_step KC VC m op F⟩
 
+omit [Inhabited V] in
 /-- **Iteration stops at the first decode error and returns it.**  For every fault vector that
 leaves the store's own iteration alone (any set of failing decode positions, plus natural decode
 failures): the callback receives exactly the decoded entries before the first failing decode — or
@@ -199,6 +203,7 @@ theorem C06_store_iterate_stops_at_first_decode_error (KC : Codec K) (VC : Codec
       rfl
     rw [hst, hj]; simp
 
+omit [Inhabited V] in
 /-- **The typed view is the raw store.**  A successful `Set k v` leaves exactly the raw store with
 `enc k ↦ enc v` inserted, after which `Get k` returns `v` (round-trip codecs) and keys with another
 encoding are unaffected; a successful `Delete k` erases `enc k`, after which `Get k` is not found. -/
@@ -241,6 +246,28 @@ theorem C06_store_set_get (KC : Codec K) (VC : Codec V) (hv : VC.RoundTrip) (m :
         have hk' : KC.enc k = some kb := by unfold encKF at hk; split at hk <;> simp_all
         refine ⟨kb, hk', by simp, ?_, fun kb' hne => Store.get_erase_other m kb kb' hne⟩
         simp [sget, encKF, noSFaults, hk', Store.get_erase_same]
+
+omit [Inhabited V] in
+/-- **The raw store changes only by a write the caller was told succeeded**: unless `Set`/`Delete`
+returned ok (then `C06_store_set_get` says exactly what was stored), the raw store is untouched —
+reads and iterations are pure, failed writes write nothing.  Together: under every key the bytes
+are always the encoding of the last successfully written value. -/
+theorem C06_store_stored_is_last_written (KC : Codec K) (VC : Codec V) (m : Store) (op : SOp K V) (F : SFaults)
+    (h : (sstep KC VC m op F).out ≠ .ok) : (sstep KC VC m op F).st = m := by
+  cases op with
+  | get k => simp only [sstep, sget]; repeat' split
+             all_goals rfl
+  | has k => simp only [sstep, shas]; repeat' split
+             all_goals rfl
+  | set k v =>
+    simp only [sstep, sset] at h ⊢
+    repeat' split
+    all_goals first | rfl | simp_all
+  | delete k =>
+    simp only [sstep, sdelete] at h ⊢
+    repeat' split
+    all_goals first | rfl | simp_all
+  | iterate pfx bwd stop => exact siterate_st ..
 
 /-! ## Concurrent callers of one TypedValue -/
 open Hive.Conc Hive.Typed.Conc
@@ -353,6 +380,58 @@ theorem C06_serialised_counter (C : Codec Nat) (hrt : C.RoundTrip) (scripts : Li
   rw [hquiet hq, finalVal_of_countInv h2, h1]
   simp only [List.length_range']
   exact counterOk_range _ _ (fun g hg => (h3 g hg).2)
+
+/-! ## Regenerated tie: the lock / store-call skeletons the models were written against
+
+`Hive/Gen/C06_Skel.lean` is regenerated from kvstore/typedvalue.go and kvstore/typedstore.go on every
+run.  The protocol model's program counters are read off these skeletons: `Get`/`Has` = `rlock`, cache
+test(s) with a *deferred* `runlock` on a hit (`rHit`), otherwise `runlock` (`rMiss`), `lock` with
+deferred `unlock` (`wantW`, `w1`), the re-check, then the single store call; `Compute` = `lock`,
+deferred `unlock`, `kv.Get` (store call 1) … `kv.Set` (store call 2); `Set` = `lock`, one `kv.Set`;
+`Delete` = `lock`, one `kv.Delete`.  The positions of the `call t.kv.*` entries are exactly the
+`kv1`/`kv2` positions of the fault vectors.  A change of the lock or store-call structure breaks these
+obligations even when no stress schedule hits the difference. -/
+section Skeleton
+open Hive.Gen.C06Skel
+
+theorem C06_skeleton_get : skel_TypedValue_Get =
+    ["rlock t.mutex", "if{", "defer runlock t.mutex", "return", "}if", "if{", "defer runlock t.mutex", "return", "}if",
+     "runlock t.mutex", "lock t.mutex", "defer unlock t.mutex", "if{", "return", "}if", "if{", "return", "}if",
+     "call t.kv.Get", "if{", "if{", "}if", "return", "}else{", "if{", "return", "}if", "}if", "return"] := by decide
+
+theorem C06_skeleton_has : skel_TypedValue_Has =
+    ["rlock t.mutex", "if{", "defer runlock t.mutex", "return", "}if", "runlock t.mutex", "lock t.mutex",
+     "defer unlock t.mutex", "if{", "return", "}else{", "call t.kv.Has", "if{", "return", "}if", "}if", "return"] := by
+  decide
+
+theorem C06_skeleton_compute : skel_TypedValue_Compute =
+    ["lock t.mutex", "defer unlock t.mutex", "if{", "call t.kv.Get", "if{", "if{", "return", "}if", "}else{", "if{",
+     "return", "}else{", "}if", "}if", "}if", "if{", "if{", "return", "}if", "return", "}else{", "if{", "return",
+     "}else{", "call t.kv.Set", "if{", "return", "}if", "}if", "}if", "return"] := by decide
+
+theorem C06_skeleton_set : skel_TypedValue_Set =
+    ["lock t.mutex", "defer unlock t.mutex", "if{", "return", "}else{", "call t.kv.Set", "if{", "return", "}if", "}if",
+     "return"] := by decide
+
+theorem C06_skeleton_delete : skel_TypedValue_Delete =
+    ["lock t.mutex", "defer unlock t.mutex", "call t.kv.Delete", "if{", "return", "}if", "return"] := by decide
+
+theorem C06_skeleton_store_get : skel_TypedStore_Get =
+    ["if{", "return", "}if", "call t.kv.Get", "if{", "return", "}if", "if{", "return", "}if", "return"] := by decide
+
+theorem C06_skeleton_store_has : skel_TypedStore_Has = ["if{", "return", "}if", "call t.kv.Has", "return"] := by decide
+
+theorem C06_skeleton_store_set : skel_TypedStore_Set =
+    ["if{", "return", "}if", "if{", "return", "}if", "call t.kv.Set", "if{", "return", "}if", "return"] := by decide
+
+theorem C06_skeleton_store_delete : skel_TypedStore_Delete =
+    ["if{", "return", "}if", "call t.kv.Delete", "if{", "return", "}if", "return"] := by decide
+
+theorem C06_skeleton_store_iterate : skel_TypedStore_Iterate =
+    ["func{", "if{", "return", "}if", "if{", "return", "}if", "return", "}func", "call t.kv.Iterate", "if{", "return",
+     "}if", "return"] := by decide
+
+end Skeleton
 
 /-! ## Non-vacuity: the hypotheses are satisfiable by concrete, non-trivial instances -/
 
